@@ -287,6 +287,9 @@ class Emitter:
                     val = f["get"].format(val)
                 return Code(val, f["ty"])
             c = self.cexpr(e[1], env)
+            vf = getattr(self.u, "value_fields", {}).get((c.ty, e[2]))
+            if vf:
+                return Code(f"{paren(c.val)}.{vf}", "usize", c.pre)
             if e[2].isdigit():
                 ty = None
                 if c.ty and c.ty.startswith("("):
@@ -389,6 +392,9 @@ class Emitter:
             if op == "+" and getattr(self.u, "checked_add", False):
                 tmp = env.fresh()
                 return Code(tmp, "usize", pre + [f"let {tmp} ← {self.u.uadd} {paren(ca.val)} {paren(cb.val)}"])
+            if op == "*" and getattr(self.u, "checked_mul", False):
+                tmp = env.fresh()
+                return Code(tmp, "usize", pre + [f"let {tmp} ← {self.u.umul} {paren(ca.val)} {paren(cb.val)}"])
             if op in ("+", "*", "/", "%"):
                 return Code(f"({ca.val} {op} {cb.val})", "usize", pre)
             if op == "-":
